@@ -658,6 +658,15 @@ def zoo(tier='quick'):
     p.decl('CA.MON', lambda c: sd.MoneyMarket(c['CA'], issuer_short_code=c.nm('MINT')), group='CA', kind='market')
     p.features.add('mm')
     Z.append(p)
+    # a variable whose NAME contains the word the Model uses to mark exogenous definitions
+    p = single('sim_variable_named_exogenous_level')
+
+    def exo_named_post(c):
+        c['CA.HH'].AddVariable('EXOGENOUS_LEVEL', 'a level the user calls exogenous', '2.0')
+        c['CA.HH'].AddVariable('TARGET', 'uses it', 'EXOGENOUS_LEVEL + 0.5*AfterTax')
+        c['CA.GOV'].AddVariable('NONEXOGENOUS', 'another one', '3.0 + T')
+    p.post(exo_named_post)
+    Z.append(p)
     Z.append(two_zone('xz_gold_mixed', dict(gov='gold_gov', mm=True), dict(gov='cons', caps=True, firm='fm1'),
                       [G('AA.HH', 'BB.CAP'), G('BB.HH', 'AA.HH')]))
     # flows whose source / target are firms and governments (not only households), within and across zones
